@@ -210,7 +210,7 @@ Definition attempt_codes (c : case) (r : round) (a : attempt) (o : option (statu
       (* entries of other controllers: none lost, duplicated or altered *)
       when (negb (match_all entry_full_eqb (foreign_of ctl p) (foreign_of ctl s))) d15
       (* exactly this controller's entries are the computed ones *)
-      ++ when (negb (carries lim k ctl (r_gen r) (Some (r_time r)) false (r_comp r) s)) code_violation
+      ++ when (negb (carries lim k ctl (r_gen r) (Some (r_time r)) false (r_comp r) s)) d16
       (* nothing but the transition time would change (same entries, conditions in the same order): must not write *)
       ++ when (carries lim k ctl (r_gen r) None true (r_comp r) p) code_violation
       (* CRD limits *)
